@@ -228,6 +228,8 @@ func checkC19(c *Ctx, r *Report) {
 			o.Bad("registry lookup at %s is keyed by %s, not by the URL's scheme", c.pos(look.tuple.Pos()), look.keyPath())
 		} else if g6ParamIndex(fn, look.keyRoot) < 0 {
 			o.Bad("registry lookup at %s is keyed by %s, which is not the scheme of the URL passed in", c.pos(look.tuple.Pos()), look.keyPath())
+		} else if look.errForm {
+			o.OK(mapName+"[%s] with comma-ok, made by %s which hands back the looked-up dialer with a nil error on the found edge and ErrMissingDialer itself on every other return, called at %s%s", look.keyPath(), look.via, c.pos(look.tuple.Pos()), in)
 		} else if look.via != "" {
 			o.OK(mapName+"[%s] with comma-ok, made by %s which returns both results unchanged, called at %s%s", look.keyPath(), look.via, c.pos(look.tuple.Pos()), in)
 		} else {
@@ -246,11 +248,20 @@ func checkC19(c *Ctx, r *Report) {
 					continue
 				}
 				errV := resOf(ret, 1)
+				// ErrMissingDialer itself - or, when the lookup helper reports a miss as an error (nil
+				// exactly when found, ErrMissingDialer by identity otherwise), that error handed on
+				isMissing := false
 				if ld, ok := errV.(*ssa.UnOp); ok && strings.HasSuffix(pathOf(ld), "transport.ErrMissingDialer") {
+					isMissing = true
+				}
+				if look.errForm && isOK(errV) {
+					isMissing = true
+				}
+				if isMissing {
 					nMissing++
 					good := false
 					for _, cd := range condsAt(ret.Block()) {
-						if isOK(cd.V) && !cd.Truth {
+						if _, notFound := h5LookupEdge(look, cd); notFound {
 							good = true
 						}
 					}
@@ -267,7 +278,7 @@ func checkC19(c *Ctx, r *Report) {
 						recv := call.Call.Value
 						if e0, ok := recv.(*ssa.Extract); ok && e0.Tuple == look.tuple && e0.Index == look.dIdx {
 							for _, cd := range condsAt(call.Block()) {
-								if isOK(cd.V) && cd.Truth {
+								if found, _ := h5LookupEdge(look, cd); found {
 									good = true
 								}
 							}
